@@ -165,24 +165,64 @@ def coq_run(ctx, name, body, timeout=900):
     return rc, out
 
 
+def _mem_available_gb():
+    try:
+        for line in open("/proc/meminfo"):
+            if line.startswith("MemAvailable:"):
+                return int(line.split()[1]) / 1e6
+    except OSError:
+        pass
+    return 1e9
+
+
+def _coqc_estimate_gb(body):
+    """resident memory of one coqc evaluating a cases file, as measured here: about 0.6 GB plus 360 bytes per
+    byte of Gallina literal (8 MB of source: 2.8 GB, 13 MB: 4.7 GB)"""
+    return 0.6 + 360e-9 * len(body)
+
+
 def coq_eval_many(ctx, files, timeout=1800):
-    """files: list of (name, body). Runs up to NPROC coqc in parallel. Returns {name: (rc,out)}"""
-    procs = []
+    """files: list of (name, body). Runs up to NPROC coqc in parallel -- fewer when memory is short: a file is
+    started only while the memory still free covers what the files already started are expected to grow to,
+    the new one, and a reserve (sixteen evaluations of 13 MB literals, two checks at a time, once exhausted the
+    62 GB of this machine and the kernel killed the checks). One evaluation is always allowed to run.
+    Returns {name: (rc,out)}"""
     res = {}
     pending = list(files)
-    running = []
+    running = []          # (name, process, output path, start time, estimate)
+    RESERVE = 6.0
     while pending or running:
+        still = []
+        for name, p, opath, t0, est in running:
+            if p.poll() is None:
+                still.append((name, p, opath, t0, est)); continue
+            try:
+                out = open(opath, errors="replace").read()
+            except OSError:
+                out = ""
+            res[name] = (p.returncode, out)
+        running = still
+        started = False
         while pending and len(running) < NPROC:
-            name, body = pending.pop(0)
+            name, body = pending[0]
+            est = _coqc_estimate_gb(body)
+            now = time.time()
+            growing = sum(e * max(0.0, 1.0 - (now - t0) / 90.0) for _, _, _, t0, e in running)
+            if running and _mem_available_gb() - growing < est + RESERVE:
+                break
+            pending.pop(0)
             path = os.path.join(ctx.work, name + ".v")
+            opath = os.path.join(ctx.work, name + ".out")
             with open(path, "w") as f:
                 f.write(body)
+            of = open(opath, "w")
             p = subprocess.Popen(["sh", "-c", "ulimit -s unlimited 2>/dev/null; exec timeout %d coqc -Q %s XO %s" % (timeout, os.path.join(COQ, "theories"), path)],
-                                 cwd=ctx.work, stdout=subprocess.PIPE, stderr=subprocess.STDOUT, text=True)
-            running.append((name, p))
-        name, p = running.pop(0)
-        out, _ = p.communicate()
-        res[name] = (p.returncode, out)
+                                 cwd=ctx.work, stdout=of, stderr=subprocess.STDOUT)
+            of.close()
+            running.append((name, p, opath, now, est))
+            started = True
+        if running and not started:
+            time.sleep(0.2)
     return res
 
 
